@@ -54,7 +54,10 @@ def correspondence(ctx, mc_share=None):
             res.nontrivial.add(core.canonical_key("h", ops))
     res.rule = ("random histories (8-35 operations) over 2-3 measurements and up to 6 calculated quantities built on each other: "
                 "create, set value, set uncertainty (incl. negative = rejected), set/reset correlation, read value/error/derivative, "
-                "recalculate, global and per-quantity method (enum or string), reset method, mc access, sample size; observed after each "
+                "recalculate, global and per-quantity method (enum or string, invalid selections), reset method, mc access, sample size, "
+                "Monte Carlo settings (custom pair, mode, confidence, range); numbers also arrive as numpy scalars / Fraction / bool; "
+                "powers with a measurement (often an exact one) as exponent, sqrt(a - b) at equal central values (non-finite "
+                "uncertainty: compared as such, skipped by the model), read-switch-away-and-back-read macros; observed after each "
                 "operation: number read (derivative method) or identity of the stored sample set (Monte Carlo). non-trivial = contains a "
                 "value change, a recalculate and a read; distinct by content")
     res.samples = [{"history": cases[0][0][:10], "observed": cases[0][1][:10]}]
